@@ -8,7 +8,7 @@ from mpv import arr, cmdgen, ref, syntax
 
 
 # ---------------------------------------------------------------- generation
-def gen_table(rng, ncols=None, nrows=None, shape=None):
+def gen_table(rng, ncols=None, nrows=None, shape=None, exotic_names=True):
     if shape is not None:
         nrows = 1
         for e in shape:
@@ -29,7 +29,11 @@ def gen_table(rng, ncols=None, nrows=None, shape=None):
         if len(set(valid)) < 2:
             data[0] = 3 if integer else 3.5
             data[1 % nrows] = -2 if integer else -2.25
-        cols["X%d" % i] = {"data": data, "integer": integer}
+        cname = "X%d" % i
+        if shape is None and i == 0 and exotic_names and rng.random() < 0.15:
+            # a column header holding a character that str.splitlines() would break a line at (legal in a CSV header)
+            cname = rng.choice(["X\x0c0", "X\x850", "X\u20280", "X\x0b0", "X 0", "X\x1c0"])
+        cols[cname] = {"data": data, "integer": integer}
     t = {"cols": cols, "nrows": nrows, "missing": missing, "file": "in.csv"}
     if shape is not None and cols and rng.random() < 0.6:
         # a non-negative column (NetCDF 'Positive *' reads)
@@ -96,9 +100,10 @@ def gen_model(rng, n_ops=None, sinks=True, cmds=None, table=None, metadata=False
             args["DataType"] = "Float"
         if libs != "csv" and all(v >= 0 for v in table["cols"][col]["data"]) and rng.random() < 0.7:
             args["DataType"] = "Positive Integer" if table["cols"][col]["integer"] else "Positive Float"
-        commands.append({"result": "In_%s" % col, "cmd": "EEMSRead", "args": args})
-        pool["nonfuzzy"].append("In_%s" % col)
-        colvals["In_%s" % col] = [v for v in table["cols"][col]["data"] if v != table["missing"]]
+        rname = "In_X%d" % i
+        commands.append({"result": rname, "cmd": "EEMSRead", "args": args})
+        pool["nonfuzzy"].append(rname)
+        colvals[rname] = [v for v in table["cols"][col]["data"] if v != table["missing"]]
     n_ops = n_ops if n_ops is not None else rng.randint(2, 12)
     choices = list(cmds or cmdgen.ALL)
     # result names come from a small pool shared by all models of the process (so the same name denotes different kinds of
@@ -144,7 +149,8 @@ def gen_model(rng, n_ops=None, sinks=True, cmds=None, table=None, metadata=False
     if metadata:
         for c in commands:
             if rng.random() < 0.4:
-                c["args"]["Metadata"] = {"DisplayName": rng.choice(["Layer one", "x", "Slope (deg)"]), "Color": rng.choice(["Blue", "#ff0000"])}
+                c["args"]["Metadata"] = {"DisplayName": rng.choice(["Layer one", "x", "Slope (deg)", "form\x0cfeed", "nel\x85 ls\u2028 ps\u2029", "vt\x0b fs\x1c", 'q"uote', "back\\slash"]),
+                                         "Color": rng.choice(["Blue", "#ff0000"])}
     m = {"table": table, "commands": commands}
     if libs != "csv":
         m["libs"] = "nc"
